@@ -104,6 +104,20 @@ theorem sink_final_validMerge (kind : Nat → Kind) (jobs : Nat → List Act) (s
   obtain ⟨t, ht⟩ := isMergeOf_mem hm hl
   exact hp t l ht
 
+/-- … and the recorded Write calls pass the executable check `validLines` the harness runs on Lock(sink) recorders:
+    a valid merge, one line per sink write. -/
+theorem sink_final_validLines (kind : Nat → Kind) (jobs : Nat → List Act) (sched : List (Nat × Nat)) (b N : Nat)
+    (hk : kind b = .locked) (hf : Finished (reach kind jobs sched))
+    (hN : ∀ t, N ≤ t → jobs t = []) (hp : ∀ t, ∀ l ∈ linesFor b (jobs t), Proper l) :
+    validLines (perList N fun t => linesFor b (jobs t)) ((reach kind jobs sched).calls b) = true := by
+  obtain ⟨hm, hs⟩ := sink_final_is_merge kind jobs sched b hk hf
+  have hv := sink_final_validMerge kind jobs sched b N hk hf hN hp
+  rw [hs] at hv
+  simp only [validLines, hv, Bool.true_and, List.all_eq_true]
+  intro c hc
+  obtain ⟨t, ht⟩ := isMergeOf_mem hm hc
+  simp [cut_single c (hp t c ht)]
+
 /-! ## tees -/
 
 /-- A tee of B branches (each `Lock(sink)` or buffered, each with its own encoder): when all goroutines have returned,
@@ -292,6 +306,25 @@ theorem validCalls_complete (per : List (List Bytes)) (groups : List (List Bytes
     obtain ⟨g, hg, rfl⟩ := List.mem_map.mp hc
     simp [cut_flatten g (hp g hg)]
 
+/-- `validLines` accepts only call sequences that are, call by call, proper lines forming a merge of `per` -/
+theorem validLines_sound (per : List (List Bytes)) (calls : List Bytes) (h : validLines per calls = true) :
+    (∀ c ∈ calls, Proper c) ∧ IsMergeOf (fun t => per.getD t []) calls := by
+  simp only [validLines, Bool.and_eq_true, List.all_eq_true] at h
+  have hpc : ∀ c ∈ calls, Proper c := by
+    intro c hc
+    have := h.2 c hc
+    have hcut : cut c = some [c] := by simpa using this
+    exact (cut_sound c [c] hcut).2 c (by simp)
+  refine ⟨hpc, ?_⟩
+  have hv := h.1
+  simp only [validMerge, cut_flatten calls hpc] at hv
+  exact isMerge_sound calls per hv
+
+theorem validLines_complete (per : List (List Bytes)) (calls : List Bytes) (hp : ∀ c ∈ calls, Proper c)
+    (hm : IsMergeOf (fun t => per.getD t []) calls) : validLines per calls = true := by
+  simp only [validLines, Bool.and_eq_true, List.all_eq_true]
+  exact ⟨validMerge_complete per calls hp hm, fun c hc => by simp [cut_single c (hp c hc)]⟩
+
 /-! ## non-vacuity: a concrete finished run (tee of a Lock(sink) and a 5-byte BufferedWriteSyncer; a 4-byte line that
     does not fit behind two buffered lines; a ticker goroutine; one goroutine syncing) -/
 
@@ -305,6 +338,12 @@ example : (reach exKind exJobs exSched).calls 1 = [[97, 10, 120, 10], [98, 99, 1
     (reach exKind exJobs exSched).buf 1 = [] := by decide
 example : validCalls [[[97, 10], [98, 99, 100, 101, 102, 10], [103, 10]], [[120, 10]]]
     ((reach exKind exJobs exSched).calls 1) = true := by decide
+example : validLines [[[97, 10], [98, 99, 100, 101, 102, 10], [103, 10]], [[120, 10]]]
+    ((reach exKind exJobs exSched).calls 0) = true := by decide
+/-- a Lock(sink) must see one line per write: two lines in one write, or a line in two writes, are rejected by
+    `validLines` (the first is fine for a buffered sink) -/
+example : validLines [[[97, 10], [98, 10]]] [[97, 10, 98, 10]] = false ∧ validCalls [[[97, 10], [98, 10]]] [[97, 10, 98, 10]] = true ∧
+    validLines [[[97, 10]]] [[97], [10]] = false := by decide
 /-- a line torn over two sink writes is rejected by `validCalls` although the concatenation is fine -/
 example : validCalls [[[97, 10]]] [[97], [10]] = false ∧ validMerge [[[97, 10]]] [97, 10] = true := by decide
 /-- lost, duplicated, reordered, merged lines are rejected -/
